@@ -116,6 +116,52 @@ theorem closed_released_freed_exactly_once {s : St} (hi : Inv s) (c : Nat) :
       rw [hr] at hrel
       exact ⟨by simpa using hrel, h2.2, h2.1⟩
 
+/-- **The loop still owns its reference while a callback runs on the context** (clauses
+"never used after release", "closed, released and freed exactly once when its reference
+count drops to zero"). In every reachable state in which the loop is inside the user's
+`cb_close` for `c` (between `closeBegin c` and `closeEnd c`, with any legal acts of worker
+threads and peers in between): the context is live, still registered, its count is the
+loop's own reference plus the workers' retains (so at least 1 + held), and the count the
+callback observed on entry was at least 1. The other callbacks (`cb_conn`, `cb_add_ctx`,
+`cb_msg`) only ever run on a registered context (`Legal` for `turnRead`; `acceptBody` /
+`wakeBody` register before they call back), for which `refcount_counts_owners` gives the same. -/
+theorem callback_runs_on_owned_ctx {s : St} (hi : Inv s) (c : Nat) (hcl : (s.ctx c).closing = true) :
+    (s.ctx c).mem = .live ∧ c ∈ s.reg ∧ c ∉ s.queue ∧ (s.ctx c).ref = 1 + (s.ctx c).held ∧
+    1 ≤ (s.ctx c).oCls ∧ (s.ctx c).nRel = 0 ∧ (s.ctx c).nFree = 0 ∧ (s.ctx c).fdOpen = true := by
+  have g := hi.good c
+  obtain ⟨hr, hl, hn⟩ := g.cl hcl
+  have hc : c ∈ s.reg := by simpa using hr
+  have hq : c ∉ s.queue := hi.disj c hc
+  have h := g.live_ hl
+  refine ⟨hl, hc, hq, ?_, g.obs.1 hn, h.2.2.2.2.2.1, h.2.2.2.2.1, h.2.2.1⟩
+  have h1 := h.1
+  simp only [b2n, hc, hq, decide_true, decide_false, if_true] at h1
+  simpa using h1
+
+/-- **A worker that drops its reference while the loop is inside `cb_close` never frees the
+context** (the loop's reference is still counted): the release succeeds, the context stays
+live and registered and the loop is still inside its callback on valid memory; the free
+happens later, in `closeEnd`, by whoever brings the count to zero. -/
+theorem worker_release_during_close_keeps_ctx {s : St} (hi : Inv s) (c : Nat)
+    (hcl : (s.ctx c).closing = true) (hh : 0 < (s.ctx c).held) :
+    ∃ s', workerRelease s c = .ok s' ∧ Inv s' ∧ (s'.ctx c).mem = .live ∧ (s'.ctx c).closing = true ∧
+      c ∈ s'.reg ∧ (s'.ctx c).ref = (s.ctx c).ref - 1 := by
+  obtain ⟨hl, hc, _, href, _⟩ := callback_runs_on_owned_ctx hi c hcl
+  have h2 : 2 ≤ (s.ctx c).ref := by omega
+  refine ⟨_, workerRelease_spec s c hl, inv_set hi c _ hl (good_wrel (hi.good c) hl hh), ?_, ?_, hc, ?_⟩ <;>
+    (rw [set_ctx]; unfold wrelRec; rw [relRec_many (x := { s.ctx c with held := (s.ctx c).held - 1 }) h2])
+  · exact hl
+  · exact hcl
+
+/-- **What the callbacks see**: the reference count observed inside `cb_close` is at least 1
+(the loop's own reference), inside `cb_conn` exactly 1, inside `cb_add_ctx` at least 1, and
+inside `cb_release` 0 (nobody else can reach the context any more). Compared with the real
+code on every callback of every generated history (harness snapshot fields). -/
+theorem callbacks_see_the_loops_reference {s : St} (hi : Inv s) (c : Nat) :
+    ((s.ctx c).nCls = 1 → 1 ≤ (s.ctx c).oCls) ∧ ((s.ctx c).nConn = 1 → (s.ctx c).oConn = 1) ∧
+    ((s.ctx c).nAdd = 1 → 1 ≤ (s.ctx c).oAdd) ∧ ((s.ctx c).nRel = 1 → (s.ctx c).oRel = 0) :=
+  (hi.good c).obs
+
 /-- **Never leaked, including contexts still queued at exit** (clause "never leaked,
 including contexts still queued at exit"). After the loop has exited (in whatever state:
 contexts registered, contexts still in the hand-over queue, connections not yet accepted)
@@ -259,7 +305,17 @@ example :
                 (s.ctx 3).nFdc == 1 && (s.ctx 0).mem == .freed && s.exited
      | .error _ => false) = true := by decide
 
-example : Legal (init none true) (.dispatch 0 1) := ⟨rfl, by simp [init]⟩
+example : Legal (init none true) (.dispatch 0 1) := ⟨rfl, by simp [init], by simp [init, upd]⟩
+
+/-- non-vacuity for the split turn: a worker holding a retain drops it while the loop is inside
+`cb_close`; the callback saw count 2, the loop frees the context afterwards -/
+example :
+    (match run (init none true)
+        [.connect true, .dispatch 0 1, .retain 1, .peerClose 1, .turnRead 1 8, .closeBegin 1,
+         .workerRelease 1, .closeEnd 1] with
+     | .ok s => (s.ctx 1).mem == .freed && (s.ctx 1).oCls == 2 && (s.ctx 1).nRel == 1 &&
+                (s.ctx 1).nFree == 1 && (s.ctx 1).oRel == 0 && (s.ctx 1).oConn == 1
+     | .error _ => false) = true := by decide
 
 /-! ## Part 2 — the event-loop pipe -/
 
